@@ -448,7 +448,7 @@ def recursive_wiring(ctx, ev):
     R.rule("C09-D4 recursive wiring", 8, "child = (own bytes, own config, own name, inherited script/KMS/alg/context); signed bottom-up; stored back under its name")
     init = repo.func(CMD, "RecursiveSigner.__init__")
     fq = ctx.fq(init)
-    generic.loops_run_to_end(ctx, "C09-D4d every listed dependency is visited", init, {"RecursiveSigner", "_load_dependency", "append"}, "dependencies listed in the configuration")
+    generic.loops_run_to_end(ctx, "C09-D4d every listed dependency is visited", init, {"RecursiveSigner", "_load_dependency", "append"}, "dependencies listed in the configuration", floor=0)
     generic.loops_run_to_end(ctx, "C09-D4d every listed dependency is visited", repo.func(CMD, "RecursiveSigner.recursive_sign"), {"recursive_sign"},
                              "dependencies of the node")
     A = lambda n: App("attr:" + n, (SELF,))
